@@ -96,9 +96,30 @@ def is_assign(x):
     return isinstance(x, dict) and x.get('k') in ('BinaryOperator', 'CompoundAssignOperator') and x.get('op') in ASSIGN_OPS
 
 
+def assign_parts_raw(x):
+    """(lhs, rhs, op) exactly as written (used by the abstract interpreters, which evaluate the right-hand side themselves)"""
+    if is_assign(x):
+        return x['l'], x['r'], x['op']
+    if isinstance(x, dict) and x.get('k') == 'CXXOperatorCallExpr' and short(x.get('callee', '')) == 'operator=' and len(x.get('a', [])) == 2:
+        return x['a'][0], x['a'][1], '='
+    return None
+
+
 def assign_parts(x):
     """(lhs, rhs, op) for built-in assignments and for operator= calls; None otherwise"""
     if is_assign(x):
+        if x['op'] == '=':
+            # `v = v op e` (and `v = e op v` for commutative op) is reported as the compound assignment `v op= e`, so that the
+            # two spellings of an update are one shape for every rule
+            r = strip(x['r'])
+            if isinstance(r, dict) and r.get('k') == 'BinaryOperator' and r.get('op') in ('+', '-', '*', '/', '%', '&', '|', '^', '<<', '>>'):
+                l = strip(x['l'])
+                if isinstance(l, dict) and l.get('k') in ('DeclRefExpr', 'MemberExpr', 'ArraySubscriptExpr') and not any('callee' in y or is_incdec(y) for y in walk(l)):
+                    lt = show(l)
+                    if show(strip(r['l'])) == lt:
+                        return x['l'], r['r'], r['op'] + '='
+                    if r['op'] in ('+', '*', '&', '|', '^') and show(strip(r['r'])) == lt:
+                        return x['l'], r['l'], r['op'] + '='
         return x['l'], x['r'], x['op']
     if isinstance(x, dict) and x.get('k') == 'CXXOperatorCallExpr' and short(x.get('callee', '')) == 'operator=' and len(x.get('a', [])) == 2:
         return x['a'][0], x['a'][1], '='
